@@ -848,7 +848,8 @@ def enum_prescribed_damage(tier):
             for solver in ("History", "HistoryDamage", "BoundConstrain"):
                 for amp in (0.0, 0.02):
                     for dval, nodes in ((1.0, "line"), (0.5, "scattered")):
-                        yield dict(recipe=r, regu=regu, solver=solver, amp=amp, dval=dval, nodes=nodes)
+                        # the damage problem named by the member of simu.ProblemTypes, or by its plain name (the idiom of the examples)
+                        yield dict(recipe=r, regu=regu, solver=solver, amp=amp, dval=dval, nodes=nodes, byname=(nodes == "line") == (amp > 0))
 
 
 def check_prescribed_damage(case, rec):
@@ -856,7 +857,8 @@ def check_prescribed_damage(case, rec):
     X = np.asarray(mesh.coord, float)
     Nn = mesh.Nn
     sig = dict(regu=case["regu"], solver=case["solver"], loaded=case["amp"] > 0, nodes=case["nodes"])
-    rec.label("solver:" + case["solver"], "regu:" + case["regu"], "loaded" if case["amp"] > 0 else "no_driving_force")
+    rec.label("solver:" + case["solver"], "regu:" + case["regu"], "loaded" if case["amp"] > 0 else "no_driving_force",
+              "problem_by_name" if case.get("byname") else "problem_by_member")
     if case["nodes"] == "line":
         known = np.argsort(np.abs(X[:, 1] - 0.45) + 0.2 * np.abs(X[:, 0] - 0.3), kind="stable")[:3]
     else:
@@ -869,7 +871,7 @@ def check_prescribed_damage(case, rec):
     def new_simu():
         pfm = Models.PhaseField(mat, "Bourdin", case["regu"], 0.05, 0.4, solver=case["solver"])
         simu = Simulations.PhaseField(mesh.copy(), pfm)
-        simu.add_dirichlet(known.copy(), [dval], ["d"], problemType=simu.ProblemTypes.damage)
+        simu.add_dirichlet(known.copy(), [dval], ["d"], problemType="damage" if case.get("byname") else simu.ProblemTypes.damage)
         return simu
 
     # (1) one damage solve at a given displacement (zero, or a smooth field)
